@@ -386,7 +386,8 @@ def check(ctx):
         if attr == "model":
             chain_tests = [cfg.by_ast[n] for n in util.own_nodes(ge, ast.If)
                            if isinstance(n.test, ast.Compare) and "pi_method" in util.names_in(n.test)]
-            consts = {util.const(n.ast.test.comparators[0]) for n in chain_tests}
+            consts = {util.const(n.ast.test.comparators[0]) if util.const(n.ast.test.comparators[0]) is not None else util.const(n.ast.test.left)
+                      for n in chain_tests}
             validated = _validated_pi_methods(ctx)
             ctx.ob("C12.R2.exhaustive", f"{ge.qualname}|pi_method dispatch", consts == validated and len(consts) == 3, ge.where(),
                    f"dispatch covers exactly the validated methods {sorted(validated)}" if consts == validated
